@@ -66,6 +66,10 @@ def relayout(text, rng, crlf=False, directives_as_tokens=False):
     for i, (k, t) in enumerate(toks):
         if k != "ws":
             out.append(t)
+            # two tokens without any whitespace between them: where inserting some cannot change the token sequence
+            # (a closing bracket or a comma followed by an opening bracket), "no whitespace" is one more amount of it
+            if i + 1 < n and toks[i + 1][0] != "ws" and t in (")", "]", ",") and toks[i + 1][1] in ("(", "[") and rng.random() < 0.4:
+                out.append(rng.choice([" ", "   ", "\n" + " " * rng.randrange(0, 9), "\t"]))
             continue
         prev = toks[i - 1][0] if i > 0 else None
         nxt = toks[i + 1][0] if i + 1 < n else None
